@@ -163,8 +163,8 @@ pub fn main(args: &[String], w: &mut dyn Write) {
         }
         if i % 8 == 7 {
             // what RegexRule::make turns an arbitrary expression into before the crate sees it (unmake returns the prepared expression)
-            let e = rand_str(&mut r, &['a', 'b', 'p', 'x', '\\', '{', '}', '[', ']', '<', '>', '1', '2', ',', '(', ')', '|', '.', '*', '+', '?', '^', '-', '#', '_', ' '], 10);
-            let e = if r.chance(1, 8) { r.pick(&["a<<<<3>>>>", "<<<<x>>>>b", "x<<<<1,2>>>>", "\\{3}", "a{1{2}", "\\\\{2}", "<<<<>>>>", "a{2}<<<<3>>>>{x}", "a{3,}", "a{,3}", "b{2,}{", "\\{1,}", "a{1,}{2,3}{,}", "\\p{L}+", "\\P{Greek}a{x}", "\\x{1F600}", "\\u{41}{2}", "\\p{L", "\\d{x}", "a\\p{L}{b}", "[[:digit:]]+", "[a]b]", "[a-z&&[^aeiou]]", "[[:alpha:]]{x}", "\\<foo\\>"]).to_string() } else { e };
+            let e = rand_str(&mut r, &['a', 'b', 'é', 'p', 'x', '\\', '{', '}', '[', ']', '<', '>', '1', '2', ',', '(', ')', '|', '.', '*', '+', '?', '^', '-', '#', '_', ' '], 10);
+            let e = if r.chance(1, 8) { r.pick(&["a<<<<3>>>>", "<<<<x>>>>b", "x<<<<1,2>>>>", "\\{3}", "a{1{2}", "\\\\{2}", "<<<<>>>>", "a{2}<<<<3>>>>{x}", "a{3,}", "a{,3}", "b{2,}{", "\\{1,}", "a{1,}{2,3}{,}", "\\p{L}+", "\\P{Greek}a{x}", "\\x{1F600}", "\\u{41}{2}", "\\p{L", "\\d{x}", "a\\p{L}{b}", "[[:digit:]]+", "[a]b]", "[a-z&&[^aeiou]]", "[[:alpha:]]{x}", "\\<foo\\>", "h\u{e9}llo{3} {abc}", "\u{17e}lu\u{165}ou\u{10d}k\u{fd} x=a{2,4} {}", "\u{65e5}\u{672c}{2}{", "\u{e9}{1,}[[]"]).to_string() } else { e };
             if e.ends_with(' ') { continue; }
             let res = match std::panic::catch_unwind(std::panic::AssertUnwindSafe(|| mk.parse(&format!("{} (regex)", e)).map(|x| x.unmake()))) {
                 Err(_) => "panic".to_string(), Ok(Err(_)) => "err".into(), Ok(Ok((_, b, _, _))) => format!("x{}", hex(&b)) };
